@@ -94,8 +94,12 @@ ENC_RUN = dict(
     model="encrypt", sub="encrypt", driver="encrypt",
     quick=["-n", "3000", "-deep", "3000"], thorough=["-n", "100000", "-deep", "100000"], search=["-n", "30000", "-deep", "30000"],
 )
+ENC_TREE_RUN = dict(
+    model="enctree", sub="enctree", driver="enctree",
+    quick=["-n", "4000"], thorough=["-n", "150000"], search=["-n", "30000"],
+)
 ENC_ASSUME = [
-    "the Lean model covers tag resolution for every tag string / override map and Process on pointers to flat structs of string / []byte fields; nested shapes (structs through pointers, slices, maps, struct values in maps, bare maps, nil pointers) are decided on the implementation by the harness's canary oracle, not by a theorem; Taggable and wrapper-value (wrapperspb / structpb) fields are not exercised",
+    "the Lean models cover tag resolution for every tag string / override map, Process on pointers to flat structs (M7) and Process on nested value trees of structs, pointers, interface-held values, slices, slices of slices and untagged maps with addressability (M7t, tied by the enctree correspondence on run-time-built Go types); Taggable values, IgnoreTypes and deeper exotic shapes are decided on the implementation by the canary oracle; wrapper-value (wrapperspb / structpb) fields are not exercised",
     "every produced value is canonicalised by independent code: AEAD Decrypt with each candidate key (go-kms-wrapping), HKDF (x/crypto) + HMAC-SHA256 recomputation",
     "copystructure / pointerstructure / reflect settability as observed through the correspondence",
 ]
@@ -242,13 +246,13 @@ PROPS = {
     "C09": dict(
         module="Evl.Props.C09",
         theorems=["Evl.C09.tag_secure", "Evl.C09.unknown_redacted", "Evl.C09.action_keep_iff", "Evl.C09.filterLeaf_noleak", "Evl.C09.filterOne_noleak", "Evl.C09.filterElems_noleak", "Evl.C09.slice_noleak", "Evl.C09.flat_noleak", "Evl.C09.fail_closed"],
-        runs=[ENC_RUN], oracle_prefixes=["C09"], models=["M7 Encrypt (tag resolution, flat structs)"],
+        runs=[ENC_RUN, ENC_TREE_RUN], oracle_prefixes=["C09"], models=["M7 Encrypt (tag resolution, flat structs)", "M7t EncryptTree (nested values)"],
         trusted_base=TB_COMMON, assumptions=ENC_ASSUME, rule=ENC_RULE,
     ),
     "C10": dict(
         module="Evl.Props.C10",
         theorems=["Evl.C10.shape", "Evl.C10.filterElems_length", "Evl.C10.length_preserved", "Evl.C10.identity"],
-        runs=[ENC_RUN], oracle_prefixes=["C10"], models=["M7 Encrypt (flat structs)"],
+        runs=[ENC_RUN, ENC_TREE_RUN], oracle_prefixes=["C10"], models=["M7 Encrypt (flat structs)", "M7t EncryptTree (nested values)"],
         trusted_base=TB_COMMON, assumptions=ENC_ASSUME + ["partial: 'the input is not modified' is decided by the deep before/after snapshot comparison of the harness on every case; Go-level aliasing is outside the value model"],
         rule=ENC_RULE,
     ),
